@@ -64,6 +64,8 @@ def write_traces(prefix, runs, chunks):
                 for e in run:
                     f.write(json.dumps(e, separators=(",", ":")))
                     f.write("\n")
+            # sentinel: only matched when the last run is complete (a truncated last run must not be accepted)
+            f.write('{"ev":"end"}\n')
         files.append(path)
     return files
 
@@ -85,6 +87,8 @@ def locate(path, matched):
             if matched is not None and lineno == matched + 1:
                 if o.get("ev") == "input" and prev is not None:
                     bad = {"index": n - 2, "event": o, "input": prev, "ended_without_outcome": True}
+                elif o.get("ev") == "end":
+                    bad = {"index": n - 1, "event": o, "input": cur, "ended_without_outcome": True}
                 else:
                     bad = {"index": n - 1, "event": o, "input": cur}
     if matched is not None and bad is None:
